@@ -259,8 +259,12 @@ def instrument(Q, tr):
 
         if real:
             def attach(orig, server, ind, *a, nid=nid, nd=nd, **k):
+                # waiting = held by no server object (the truth), not the engine's own `not w.server` test: a stale
+                # `server` attribute (e.g. the slotted placeholder True carried to the next node) would hide the customer
+                held = {id(s.cust) for s in nd.servers if s.cust}
+                slotted = getattr(nd, 'slotted', False)
                 waiting = [(w.id_number, w.priority_class, w.arrival_date, w in nd.interrupted_individuals)
-                           for w in nd.all_individuals if w is not ind and not w.server]
+                           for w in nd.all_individuals if w is not ind and ((not w.server) if slotted else (id(w) not in held))]
                 inserv = [(s.cust.id_number, s.cust.priority_class) for s in nd.servers if s.cust]
                 order = {w.id_number: k for k, w in enumerate(nd.individuals[ind.priority_class])} if ind.priority_class < len(nd.individuals) else {}
                 ev.append(('attach', Q.current_time, nid, ind.id_number, server.id_number, ind.priority_class, ind.arrival_date,
